@@ -150,6 +150,10 @@ inline bool parse_cfg(std::istringstream& t, Cfg& g, std::string& kind, int& ts,
     t >> kind >> g.cap >> ts >> mlf100 >> g.ttl >> g.tick >> g.rnum >> g.rsh >> g.flavour >> g.keys;
     if (!t || !kind_from(kind, g.kind))
         return false;
+    if (!(t >> g.us))
+        g.us = 250;
+    g_us_per_tick = g.us;
+    g_now_ms      = 1000;
     g.ts  = ts != 0;
     g.mlf = static_cast<float>(mlf100) / 100.0f;
     return true;
